@@ -1,6 +1,6 @@
 //! Model configurations (DESIGN.md §5: core / full sets), all built through the public API from
 //! the parameter files shipped in /repo/parameters or from literal records.
-use feos::epcsaft::{ElectrolytePcSaft, ElectrolytePcSaftParameters, ElectrolytePcSaftVariants};
+use feos::epcsaft::{ElectrolytePcSaft, ElectrolytePcSaftBinaryRecord, ElectrolytePcSaftParameters, ElectrolytePcSaftRecord, ElectrolytePcSaftVariants};
 use feos::gc_pcsaft::{GcPcSaft, GcPcSaftEosParameters};
 use feos::pcsaft::{PcSaft, PcSaftParameters};
 use feos::pets::{Pets, PetsParameters, PetsRecord};
@@ -331,6 +331,31 @@ pub fn all(full: bool) -> Vec<Config> {
             40.0,
             false,
         ));
+    }
+    v
+}
+
+/// Configurations with literal parameter sets that exercise code no shipped record reaches.  Kept apart from [`all`]: the
+/// phase-equilibrium properties draw their systems from [`all`] and make claims only about shipped records.
+pub fn literal() -> Vec<Config> {
+    use ResidualModel as M;
+    let mut v = Vec::new();
+    // ePC-SAFT, two non-electrolyte components, temperature dependent k_ij(T) = k0 + k1 dT + k2 dT^2 + k3 dT^3 (no shipped
+    // binary record has k1..k3 != 0)
+    {
+        let rec = |name: &str, mw: f64, m: f64, s: f64, e: f64| {
+            PureRecord::new(
+                Identifier::new(None, Some(name), None, None, None, None),
+                mw,
+                ElectrolytePcSaftRecord::new(m, s, e, None, None, None, None, None, None, None),
+            )
+        };
+        let recs = vec![rec("a", 16.043, 1.0, 3.7039, 150.03), rec("b", 58.123, 2.3316, 3.7086, 222.88)];
+        let k = ElectrolytePcSaftBinaryRecord::new(Some(vec![0.02, 3e-4, -1.5e-6, 4e-9]), None, None);
+        let z = ElectrolytePcSaftBinaryRecord::new(Some(vec![0.0, 0.0, 0.0, 0.0]), None, None);
+        let b = Array2::from_shape_fn((2, 2), |(i, j)| if i == j { z.clone() } else { k.clone() });
+        let p = ElectrolytePcSaftParameters::from_records(recs, Some(b)).unwrap();
+        v.push(cfg("epcsaft_literal_kij_of_t", M::ElectrolytePcSaft(ElectrolytePcSaft::new(Arc::new(p))), 2, 350.0, true));
     }
     v
 }
